@@ -59,6 +59,8 @@ type interpreter struct {
 	extCache           map[*ssa.Function]externalFn
 	initOK             map[string]bool // packages whose initialisers run
 	fieldWatch         map[string]bool
+	sharedInit         map[string]bool
+	extraMutable       map[string]bool
 }
 
 type deferred struct {
@@ -99,6 +101,9 @@ func (fr *frame) get(key ssa.Value) value {
 		if r, ok := fr.i.globals[key]; ok {
 			return r
 		}
+		cell := zero(mustDeref(key.Type()))
+		fr.i.globals[key] = &cell
+		return &cell
 	}
 	if ix, ok := fr.info.idx[key]; ok {
 		return fr.vals[ix]
